@@ -8,6 +8,26 @@ _BASE = (
 )
 
 CLAIMS = {
+  "C13": {
+    "text": "io.reset_data is executed symbolically as a whole (host code + its five nested kernels bound through the real launch sites, "
+    "for reset=None, a bool mask and an integer mask). For a symbolic selected world every field of the integration state and every "
+    "reported output is proved equal to the FRESH value (MuJoCo's mj_resetData state), for a symbolic unselected world every per-world "
+    "field and its reported contacts are proved unchanged, and nothing outside the declared reset frame is written. Holds for all sizes "
+    "(na > nu, nv < nq, ...), masks and prior states at once. Two genuine defects remain as known findings (history buffers never reset; "
+    "partial reset corrupts other worlds' reported contacts); one was repaired (act[nu:na]).",
+    "note": _BASE + "FRESH spec is MuJoCo's documented reset state (make_data is numpy host code: audited natively against it, not proved). "
+    "MODEL_WF axioms used: body_mocapid bijection, nv <= nq (assumed, audited). sleep.update_sleep enters through its frame contract "
+    "(proved: update_sleep#frame); sleep bookkeeping values are claimed for SLEEP off. 'Same subsequent trajectory' rests on C12.",
+    "design_ref": "DESIGN.md 3 (C13)",
+  },
+  "C14": {
+    "text": "io.reset_data_keyframe (host code, valid_key_mask, the inlined reset_data with its kernels, reset_keyframe_data) is executed "
+    "symbolically as one program for a per-world key array and for a scalar key: worlds with a valid index get the fresh reset plus the "
+    "keyframe's time/qpos/qvel/act/ctrl/mocap rows, worlds with an invalid index are provably untouched in every written field, key-table "
+    "rows are only read with an index in [0,nkey), an invalid scalar key or a key array of wrong shape raises before any launch.",
+    "note": _BASE + "Same FRESH spec, MODEL_WF axioms and update_sleep frame contract as C13; history after reset: see C13 known finding.",
+    "design_ref": "DESIGN.md 3 (C14)",
+  },
   "C15": {
     "text": "get_state/set_state are verified at the level of the public host functions (the nested kernel is bound through the real "
     "wp.launch site): for a symbolic signature, symbolic sizes, world and mask, every state component lands at the MuJoCo offset, "
